@@ -529,10 +529,13 @@ func postprocessParsed(lookup objLookup) {
 	// may reference up to 11 $crypto_ipsec_ikev2_ipsec-proposal
 	setTransRef := func(prefix, part string) {
 		cmdPart := " set " + part + " "
-		for _, l := range lookup[prefix] {
-			for _, c := range l {
+		for _, name := range slices.Sorted(maps.Keys(lookup[prefix])) {
+			for _, c := range lookup[prefix][name] {
 				if def, names, found := strings.Cut(c.parsed, cmdPart); found {
 					nl := strings.Fields(names)
+					if len(nl) > 11 {
+						errlog.Abort("Too many values in '%s'", c.orig)
+					}
 					c.ref = nl
 					c.parsed =
 						def + cmdPart + strings.Repeat("$REF ", len(nl)-1) + "$REF"
